@@ -16,6 +16,7 @@ META = dict(
     required_hits=["compositions_compared"],
     max_inconclusive_frac=0.25,
 )
+META["level_text"] += ' Half of the threshold cards give alpha_s exactly on the crossed matching scale with the lower nf.'
 
 PIDS = c05.PIDS
 
